@@ -27,6 +27,9 @@ def run(tier, seed, vh, only_paths=None, mode=None):
         rc2b, out2b = run_tlc("RosmarHLC.tla", os.path.join(SPEC, "MC_HLC_witness2.cfg"), os.path.join(run, "meta_mc3"), workers=16, timeout=600)
         if "AboveBeforeRestart is violated" not in out2b:
             raise Inconclusive("vacuity control: MetaKeepsMark=FALSE no longer violates AboveBeforeRestart")
+        rc2c, out2c = run_tlc("RosmarHLC.tla", os.path.join(SPEC, "MC_HLC_witness3.cfg"), os.path.join(run, "meta_mc4"), workers=16, timeout=600)
+        if "AboveBeforeRestart is violated" not in out2c:
+            raise Inconclusive("vacuity control: SeedFromBucketMark=FALSE no longer violates AboveBeforeRestart")
         # unbounded integers: Apalache discharges that HLCInductive!IndInv is an inductive invariant
         apa = {}
         for nm, args in (("base", ["--init=Init", "--inv=IndInv", "--length=0"]), ("step", ["--init=IndInit", "--inv=IndInv", "--length=1"])):
@@ -35,7 +38,7 @@ def run(tier, seed, vh, only_paths=None, mode=None):
             apa[nm] = "EXITCODE: OK" in out3 and "NoError" in out3.replace("no error", "NoError")
             if not apa[nm]:
                 raise Inconclusive("Apalache did not discharge the %s case of the HLC inductive invariant:\n%s" % (nm, out3[-800:]))
-        res["mc"] = {"cfg": "MC_HLC", "states": d, "transitions": g, "witness_SeedOnOpen_FALSE_violates": True, "witness_MetaKeepsMark_FALSE_violates": True,
+        res["mc"] = {"cfg": "MC_HLC", "states": d, "transitions": g, "witness_SeedOnOpen_FALSE_violates": True, "witness_MetaKeepsMark_FALSE_violates": True, "witness_SeedFromBucketMark_FALSE_violates": True,
                      "apalache_inductive_invariant": apa}
         n, procs = (40, 4) if tier == "quick" else (400, 8)
         scripts, seen = [], set()
